@@ -268,6 +268,20 @@ def build_simconfig(spec: dict):
     return SimConfig(**kw)
 
 
+def hamiltonian_noise_free(spec: dict) -> bool:
+    """Noise that leaves the Hamiltonian untouched: detection errors only
+    (SPAM with eta = 0) and dissipative channels (collapse operators)."""
+    if spec.get("with_leakage"):
+        return False
+    for n in spec["noise"]:
+        if n == "SPAM":
+            if spec.get("eta", 0.0) != 0.0:
+                return False
+        elif n not in ("dephasing", "relaxation", "depolarizing"):
+            return False
+    return True
+
+
 def seed_numpy(rng: random.Random) -> int:
     s = rng.getrandbits(32)
     np.random.seed(s)
@@ -326,11 +340,11 @@ def emu_issue(ctx: EmuCtx, op: dict):
                 np.random.seed(op.get("np_seed", 12345))
                 emu.set_config(build_simconfig(op["cfg"]))
                 ctx.cfg_spec = op["cfg"]
-                ctx.noise_free = not op["cfg"]["noise"]
+                ctx.noise_free = hamiltonian_noise_free(op["cfg"])
             elif k == "e_add_config":
                 np.random.seed(op.get("np_seed", 12345))
                 emu.add_config(build_simconfig(op["cfg"]))
-                ctx.noise_free = ctx.noise_free and not op["cfg"]["noise"]
+                ctx.noise_free = ctx.noise_free and hamiltonian_noise_free(op["cfg"])
             elif k == "e_reset_config":
                 emu.reset_config()
                 ctx.noise_free = True
@@ -504,8 +518,10 @@ class C05(Checker):
         if op["op"] == "e_reset_config" and err[0] is None:
             self.check(ctx, i, "after reset_config")
             ctx.probe("checked_after_reset")
-        elif op["op"] in ("e_run", "e_set_evaluation_times", "e_set_initial_state") and ctx.noise_free and err[0] is None:
-            self.check(ctx, i, f"after {op['op']} without noise")
+        elif op["op"] in ("e_run", "e_set_evaluation_times", "e_set_initial_state", "e_set_config", "e_add_config") and ctx.noise_free and err[0] is None:
+            self.check(ctx, i, f"after {op['op']} with a configuration that leaves the Hamiltonian noise-free")
+            if op["op"] in ("e_set_config", "e_add_config"):
+                ctx.probe("checked_under_detection_or_dissipative_noise")
 
     def nontrivial(self, ctx):
         snap = ctx.snap
